@@ -45,6 +45,17 @@ def _load():
     return _cache
 
 
+_strict = False
+
+
+def strict(on: bool):
+    """Strict mode (witness replays): no trigger is active, every oracle judges everything."""
+    global _strict
+    _strict = bool(on)
+
+
 def active(trigger: str) -> bool:
-    """True if generators must steer around `trigger`."""
+    """True if generators / oracles must steer around `trigger`."""
+    if _strict:
+        return False
     return trigger in _load() and trigger not in _disabled
